@@ -165,6 +165,9 @@ pub fn fuzz_case(idx: usize, c: Option<&Value>, reg: &[Box<dyn Ops>], g: &mut cr
         },
     };
     if std::env::var("CV_DEBUG").is_ok() { eprintln!("case {idx} {origin} {}", bytes.iter().map(|b| format!("{b:02x}")).collect::<String>()); }
+    // every choice about *how* an input is decoded derives from the input itself, so that another build sees the same cases
+    let hseed = bytes.iter().fold(0xcbf29ce484222325u64, |h, b| (h ^ *b as u64).wrapping_mul(0x100000001b3));
+    let g = &mut crate::gen::G::new(hseed);
     g.ndefs = 0;
     let env = TypeEnv::new();
     let ets: Vec<Type> = match g.rng_range(0, 4) { 0 => vec![], 1 => vec![g.typ(2)], 2 => vec![g.typ(1), g.typ(2)], _ => vec![candid::types::TypeInner::Reserved.into()] };
